@@ -163,7 +163,7 @@ impl SequenceNumberCounter {
 }
 
 // ---------------------------------------------------------------- journal (world-level contracts of U-WRITER functions)
-pub struct Writer { pub dummy: u8 }
+pub struct Writer { pub path: PathBuf }   // path: the file the writer appends to (ghost identity: w.journal.path, stated by rotate)
 #[derive(Clone, Copy, PartialEq, Eq)]
 pub enum PersistMode { Buffer, SyncData, SyncAll }
 pub open spec fn journal_appended(o: World, n: World) -> bool {
@@ -247,6 +247,7 @@ impl Writer {
             // Ok((sealed file, new active file)): the writer now appends to a file that did not exist before
             // (File::create_new; journal ids only grow)
             r matches Ok(pp) ==> pp.0.id@ == old(w).journal.path && pp.1.id@ == final(w).journal.path && final(w).journal.path != old(w).journal.path,
+            r is Ok ==> final(self).path.id@ == final(w).journal.path,
             // (an Err after the switch -- directory fsync failed -- leaves the writer on the new file)
             final(w).journal.path == old(w).journal.path || (forall|i: int| 0 <= i < old(w).sealed.len() ==> (#[trigger] old(w).sealed[i]).path != final(w).journal.path),
             *final(w) == (World { journal: final(w).journal, ..*old(w) }),
